@@ -139,6 +139,17 @@ func TestC14Deployments(t *testing.T) {
 		}
 		a.Prop = "C14"
 		a.CreationOrder = true
+		// no call-indexed disturbances: the sliced variant issues additional reads (the slices), so "the n-th call of the next
+		// pass" is a different call in the two variants
+		var kept []Step
+		for _, s := range a.Steps {
+			switch s.Op {
+			case "fault", "faultDryRun", "inject", "injectTouch", "injectSync", "injectOwnerEdit":
+				continue
+			}
+			kept = append(kept, s)
+		}
+		a.Steps = kept
 		if rapid.IntRange(0, 4).Draw(rt, "clusterdep") == 0 && !a.ClusterDep {
 			clusterFlavour(a)
 		}
